@@ -548,6 +548,8 @@ pub mod easy {
                     m.stat("http_completed");
                     if status == 200 && end == data.len() {
                         m.http.completed_200_bodies.push(body);
+                    } else if status == 200 {
+                        m.http.cut_but_ok_200.push((body, off as u32));
                     }
                 });
                 Ok(())
